@@ -27,7 +27,7 @@ ENUM_WORDS = ["'a'", "'b'", "'A'", "'new'", "'in progress'", "'done'", "'x-1'", 
 NAMES = ["ty", "My_Type", "status_t", "T1", '"Ty"', '"my type"', "[ty2]", "`bt`"]
 SCHEMAS = [None, None, "s", "Sch", '"S"', "[dbo]"]
 # keyword-shaped type names (C06 enumerates every keyword at this position; here a few ride along with every type form)
-KW_NAMES = ["key", "comment", "tag", "options", "index", "default", "check", "Order", "TABLESPACE"]
+KW_NAMES = ["key", "comment", "tag", "options", "index", "default", "check", "Order", "Tablespace"]
 
 
 def pick_name(rng):
@@ -50,6 +50,16 @@ def gen_enum(rng, n=None):
     ddl = "%s %s AS ENUM (%s);" % (head, qname(schema, name), sep.join(vals))
     exp = {"schema": schema, "type_name": name, "base_type": "ENUM", "properties": {"values": vals}}
     return ddl, exp, None, (schema, name) if usable else None
+
+
+def gen_type_props(rng, n=None):
+    """CREATE TYPE name (KEY = value, ...) - the property-list form"""
+    schema, (name, usable) = rng.choice(SCHEMAS), pick_name(rng)
+    keys = rng.sample(["INTERNALLENGTH", "INPUT", "OUTPUT", "ALIGNMENT", "STORAGE_X", "Receive"], n or rng.randint(1, 4))
+    props = {k: rng.choice(["16", "my_in_function", "double", "plain", "42"]) for k in keys}
+    head = rng.choice(["CREATE TYPE", "CREATE OR REPLACE TYPE"])
+    ddl = "%s %s (%s);" % (head, qname(schema, name), ", ".join("%s = %s" % kv for kv in props.items()))
+    return ddl, {"schema": schema, "type_name": name, "base_type": None, "properties": props}, None, None
 
 
 def gen_attrs(rng, n):
@@ -98,7 +108,12 @@ def gen_table_type(rng, n=None):
 def gen_domain(rng, variant=None):
     schema, name = rng.choice(SCHEMAS[:5]), rng.choice(["d", "Dom_1", "posint", '"D"'])
     base, size = rng.choice([("varchar", "(10)"), ("char", "(3)"), ("numeric", "(10,2)"), ("decimal", "(5, 0)"), ("VARCHAR", "(255)")])
-    variant = variant or rng.choice(["as", "as", "as", "nosize", "noas"])
+    variant = variant or rng.choice(["as", "as", "as", "nosize", "noas", "enum", "enum"])
+    if variant == "enum":
+        n = rng.randint(1, 6)
+        vals = [rng.choice(ENUM_WORDS) for _ in range(n)]
+        return ("CREATE DOMAIN %s AS ENUM (%s);" % (qname(schema, name), rng.choice([", ", ","]).join(vals)),
+                {"schema": schema, "domain_name": name, "base_type": "ENUM", "properties": {"values": vals}}, None, None)
     if variant == "as":
         return "CREATE DOMAIN %s AS %s%s;" % (qname(schema, name), base, size), {"schema": schema, "domain_name": name, "base_type": base, "properties": {}}, None, None
     if variant == "nosize":
@@ -161,7 +176,7 @@ def gen_tablespace(rng, kind=None, temp=None):
     return text, {"tablespace_name": nm, "properties": None, "type": kind, "temporary": temp}, None, None
 
 
-GENS = {"enum": gen_enum, "object": gen_object, "table_type": gen_table_type, "domain": gen_domain, "schema": gen_schema,
+GENS = {"enum": gen_enum, "object": gen_object, "table_type": gen_table_type, "type_props": gen_type_props, "domain": gen_domain, "schema": gen_schema,
         "database": gen_database, "tablespace": gen_tablespace}
 NEIGHBOURS = ["CREATE TABLE nb%d (a int NOT NULL, b varchar(10) DEFAULT 'x');", "CREATE TABLE s.nb%d (id int PRIMARY KEY, type int, domain varchar(3), schema int);",
               "CREATE SEQUENCE sq%d START WITH 3;"]
@@ -220,8 +235,8 @@ def recase(ddl, rng, how=None):
 
 def build_case(rng, ekind, gen, **kw):
     kind = ekind
-    ddl, exp, kf, tname = GENS[kind](rng, **kw)
-    if kind in RECASE_KINDS and kf is None and rng.random() < RECASE_P:
+    ddl, exp, kf, tname = GENS[kind](rng, **{k: v for k, v in kw.items() if k != "second"})
+    if kind in RECASE_KINDS and kf is None and not (kind == "domain" and exp.get("base_type") == "ENUM") and rng.random() < RECASE_P:
         # calibrated on the pinned tree: these declarations are recognised in any keyword case; two words are reported as written
         ddl = recase(ddl, rng)
         exp = dict(exp)
@@ -236,6 +251,14 @@ def build_case(rng, ekind, gen, **kw):
         plan.append({"kind": "neighbour", "ddl": nb})
     stmts.append(ddl)
     plan.append({"kind": "entity", "entity_kind": kind, "expected": exp})
+    if kw.get("second") or (not kw and rng.random() < 0.35):
+        # a second (third) declaration in the same script: every entity keeps its own values
+        for _ in range(rng.randint(1, 2)):
+            k2 = rng.choice([kind, kind, "domain", "enum", "tablespace", "schema"])
+            d2, e2, kf2, _t2 = GENS[k2](rng)
+            if kf2 is None:
+                stmts.append(d2)
+                plan.append({"kind": "entity", "entity_kind": k2, "expected": e2})
     if tname is not None and rng.random() < 0.6:
         uddl, uexp = user_table(rng, tname, rng.randrange(3))
         stmts.append(uddl)
@@ -312,8 +335,11 @@ def run_shard(ctx):
     for n in range(1, 7):
         jobs.append(("object", dict(n=n)))
         jobs.append(("table_type", dict(n=n)))
-    for v in ("as", "nosize", "noas"):
+    for v in ("as", "nosize", "noas", "enum"):
         jobs.append(("domain", dict(variant=v)))
+        jobs.append(("domain", dict(variant=v, second=True)))
+    for n in range(1, 5):
+        jobs.append(("type_props", dict(n=n)))
     reps = 2 if ctx.tier == "quick" else 10
     for rep in range(reps):
         for kind, kw in jobs:
